@@ -211,8 +211,7 @@ class Pattern(list, Node):
         root = ""
         if self.root is not None:
             # make sure we're not hiding a full path
-            first_seg = self[0].expand(env)
-            if not os.path.isabs(first_seg):
+            if not os.path.isabs(self._first_segment(env)):
                 root = re.escape(self.root)
         return root + "".join(child.regex_pattern(env) for child in self)
 
@@ -220,10 +219,16 @@ class Pattern(list, Node):
         root = ""
         if self.root is not None:
             # make sure we're not hiding a full path
-            first_seg = self[0].expand(env)
-            if not os.path.isabs(first_seg):
+            if not os.path.isabs(self._first_segment(env)):
                 root = self.root
         return root + "".join(self._expand_children(env, raise_missing))
+
+    def _first_segment(self, env):
+        # An empty pattern (the prefix of a pattern starting with a wildcard)
+        # and a leading wildcard are relative to the root.
+        if not self or isinstance(self[0], Star):
+            return ""
+        return self[0].expand(env)
 
     def _expand_children(self, env, raise_missing):
         # Helper iterator to convert Exception to a stopped iterator
